@@ -117,12 +117,16 @@ class C04(Prop):
             return res
         res.labels.append("world")
 
+        held = []       # a caller may keep the exceptions it caught (logging, re-raising later): they stay alive
+
         def outcome(f):
             try:
                 return ("ok", f())
             except impl.exceptions.ValidationError as e:
+                held.append(e)
                 return ("ValidationError", full_key(e))
-            except impl.exceptions.RefResolutionError:
+            except impl.exceptions.RefResolutionError as e:
+                held.append(e)
                 return ("RefResolutionError",)
         try:
             v = GW.build_validator(case)
@@ -171,9 +175,11 @@ class C04(Prop):
         js = impl.jsonschema
         fc = {"none": None, "default": js.FormatChecker(), "draft": impl.DRAFT_CHECKERS[d]}.get(case.get("format_checker"))
         from .c03 import risky_ref, bad_regex
-        if risky_ref(s) or bad_regex(s):
-            res.excluded = "ref-or-bad-regex"
+        if risky_ref(s):
+            res.excluded = "has-ref"
             return res
+        if bad_regex(s):
+            res.labels.append("uncompilable-regex")     # entry points must still agree wherever it is not applied
         explicit = not (case.get("via_dollar") and isinstance(s, dict) and "$schema" in s)
         if not explicit:
             sel = impl.validators.validator_for(s)
